@@ -7,7 +7,7 @@ import (
 	"verif/mc/gen/num"
 )
 
-func init() { props["C06"] = c06 }
+func init() { props["C06"] = c06; programSets["C06"] = num.Programs }
 
 func c06(tier string) int {
 	start := time.Now()
